@@ -511,6 +511,8 @@ static void iauth_collect_stats(int terminator_last)
         iauth_send(NULL, "s");
 }
 
+static void parse_disconnect(struct iauth_request *req);
+
 static void parse_new_client(int id, int argc, char *argv[])
 {
     struct iauth_module *plugin;
@@ -519,6 +521,12 @@ static void parse_new_client(int id, int argc, char *argv[])
     struct timeval timeout;
     irc_inaddr remote_addr;
     irc_inaddr local_addr;
+
+    /* The server uses an id again only once its previous holder is gone,
+     * whatever we make of the new announcement. */
+    req = set_find(iauth_reqs, &id);
+    if (req)
+        parse_disconnect(req);
 
     if (argc < 5)
         return;
